@@ -37,7 +37,7 @@ STUB = ["user tables (row-identity encoded)", "reference EpochModel (multiset of
 ASSUMPTIONS = [
     "rows are compared as multiset elements (bytes), so duplicate samples cannot raise an alarm",
     "a reshuffle is observed as: store order changed, or cursor == 0 after the call, or (ambiguous) PRNG key changed; ambiguous events are resolved angelically",
-    "RAR-enabled generators are excluded (their epoch is C16/C17's)",
+    "refinement-configured generators (15 % of the collocation generators): only 'the store stays a permutation of itself' and 'batches are made of stored rows' are checked here; the epoch of their live part is C16/C17's",
 ]
 TOLERANCES = {"float": "exact (bytes)"}
 
@@ -87,7 +87,7 @@ def generate(rng, tier, r):
     thorough = tier == "thorough"
     return gg.gen_program(
         rng, KINDS, max_tasks=2, max_ops=160 if thorough else 40,
-        nmax=60 if thorough else 24, float_mode=float_mode(r),
+        nmax=60 if thorough else 24, float_mode=float_mode(r), rar_cfg_prob=0.15,
     )
 
 
@@ -99,7 +99,7 @@ def execute(program, ctx):
 
     def on_construct(t):
         for v in gensim.substreams(t.spec, t.g, None):
-            t.models[v["name"]] = gensim.EpochModel(ID, t.spec["kind"], v)
+            t.models[v["name"]] = gensim.EpochModel(ID, t.spec["kind"], v, perm_only=bool(t.spec.get("rar_cfg")))
 
     def on_call(t, g, b, op, step):
         modes.add(op["mode"])
